@@ -202,12 +202,20 @@ pub fn gen_stack(r: &mut Rng, depth: usize, axial: bool, allow_para: bool) -> Ve
 /// constraint families: none, wide, narrow window around `around`, wrapping, from == to on some joints
 pub fn gen_cons(r: &mut Rng, around: Option<&Joints>) -> (String, Option<([f64; 6], [f64; 6], f64)>) {
     let w = *r.pick(&[0.0, 1.0, 0.3, 0.5, 0.0]);
-    match r.below(6) {
+    match r.below(7) {
         0 => ("none".into(), None),
         1 => {
             let mut f = [0.0; 6]; let mut t = [0.0; 6];
             for k in 0..6 { f[k] = r.range(-PI, 0.0); t[k] = r.range(0.0, PI); }
             ("wide".into(), Some((f, t, w)))
+        }
+        6 => {
+            // a continuously rotating joint declared as -inf..+inf (centre NaN, tolerance inf)
+            let mut f = [0.0; 6]; let mut t = [0.0; 6];
+            for k in 0..6 { f[k] = r.range(-PI, -1.0); t[k] = r.range(1.0, PI); }
+            let k = *r.pick(&[5usize, 5, 3, 0]);
+            f[k] = f64::NEG_INFINITY; t[k] = f64::INFINITY;
+            ("unlimited-joint".into(), Some((f, t, w)))
         }
         2 => {
             let c = around.cloned().unwrap_or([0.0; 6]);
